@@ -300,7 +300,10 @@ def _cold(ctx, tier, rec, rng):
                 # interpreter flags a deployment may use: assertions off (-O), docstrings stripped as well (-OO)
                 flags = ([], ["-O"], ["-OO"])[(j + ctx.shard) % 3]
                 ctx.hit("replay_cold_start_flags_" + ("".join(flags) or "default"))
-                p = subprocess.run([sys.executable] + flags + ["-m", "pmv.coldstart", path, str(ctx.shard * 31 + j * 7 + ctx.seed), "8"],
+                strict = ["strict"] if (j + ctx.shard // 3) % 2 == 1 else []
+                if strict:
+                    ctx.hit("replay_cold_start_strict_numeric_policy")
+                p = subprocess.run([sys.executable] + flags + ["-m", "pmv.coldstart", path, str(ctx.shard * 31 + j * 7 + ctx.seed), "8"] + strict,
                                    capture_output=True, text=True, timeout=120, env=env, cwd=core.VERIF)
                 out = json.loads(p.stdout.strip().splitlines()[-1]) if p.stdout.strip() else None
             except Exception:
@@ -311,7 +314,7 @@ def _cold(ctx, tier, rec, rng):
             n += 1
             for w in out[:2]:
                 ctx.violation("result-differs-in-a-fresh-interpreter:" + w["function"].split(".")[-1], monitor="replay",
-                              case=None, interpreter_flags="".join(flags) or "default", **w)
+                              case=None, interpreter_flags=("".join(flags) or "default") + (" + np.seterr(all=raise) before first use" if strict else ""), **w)
         ctx.hit("replay_cold_start_processes", n)
     finally:
         try:
